@@ -78,7 +78,8 @@ impl Stats {
     /// # Ok::<(),error::CIError>(())
     /// ```
     pub fn ci(&self, confidence: Confidence, quantile: f64) -> CIResult<Interval<usize>> {
-        if quantile <= 0. || 1. <= quantile {
+        // NB: written so that NaN is rejected as well
+        if !(0. < quantile && quantile < 1.) {
             return Err(error::CIError::InvalidQuantile(quantile));
         }
 
